@@ -657,6 +657,15 @@ impl DbInner {
 			}
 		}
 
+		// Reject an invalid change set before the commit id or the overlay are touched:
+		// a failed commit must leave no trace.
+		for indexed in commit.indexed.values() {
+			indexed.validate(&self.options)?;
+		}
+		for iterset in commit.btree_indexed.values() {
+			iterset.validate(&self.options)?;
+		}
+
 		let mut overlay = self.commit_overlay.write();
 
 		queue.record_id += 1;
@@ -2214,6 +2223,28 @@ impl IndexedChangeSet {
 
 	fn push_node_change(&mut self, change: NodeChange) {
 		self.node_changes.push(change);
+	}
+
+	/// Check that every operation is allowed for the column, without side effects.
+	fn validate(&self, options: &Options) -> Result<()> {
+		let ref_counted = options.columns[self.col as usize].ref_counted;
+		for change in self.changes.iter() {
+			match change {
+				Operation::Set(..) | Operation::Dereference(..) => (),
+				Operation::Reference(..) =>
+					if !ref_counted {
+						return Err(Error::InvalidInput(format!("No Rc for column {}", self.col)))
+					},
+				Operation::InsertTree(..) |
+				Operation::ReferenceTree(..) |
+				Operation::DereferenceTree(..) =>
+					return Err(Error::InvalidInput(format!(
+						"Invalid operation for column {}",
+						self.col
+					))),
+			}
+		}
+		Ok(())
 	}
 
 	fn copy_to_overlay(
